@@ -501,6 +501,15 @@ func (p *Prog) factsOf(f *ssa.Function) *factResult {
 					if p.noReturn(pr) {
 						continue // block ends in a call that never returns (zerolog Panic/Fatal)
 					}
+					if len(pr.Succs) == 2 && pr.Succs[0] != pr.Succs[1] {
+						si := 1
+						if pr.Succs[0] == b {
+							si = 0
+						}
+						if deadEdge(pr, si) {
+							continue // nil != nil: never taken
+						}
+					}
 					e := po.clone()
 					if ifi, ok := pr.Instrs[len(pr.Instrs)-1].(*ssa.If); ok && pr.Succs[0] != pr.Succs[1] {
 						pol := pr.Succs[0] == b
